@@ -3,10 +3,11 @@
 case = (kind, payload):
   ('json',  tree)   jsonValue() of the tree and _parse_datatype_json_string(tree.json())
   ('parse', json, expected|None, label)      _parse_datatype_json_value on a (possibly damaged) JSON value
-  ('infer', rows, label)                     schema_utils.infer_schema_from_list(rows)
+  ('infer', rows, label, tree)               schema_utils.infer_schema_from_list(rows)
   ('merge', tree_a, tree_b)                  _merge_type(a, b)
   ('verify', tree, nullable, value, label)   _make_type_verifier(tree, nullable)(value)
   ('create', rows, label, tree)              SparkSession.createDataFrame(rows).collect() (schema inferred)
+  ('create_rdd', rows, label, tree, slices)  the same with sc.parallelize(rows, slices) as input (SparkSession._inferSchema)
   ('create_s', schema, rows, label)          SparkSession.createDataFrame(rows, schema).collect()
   ('row', value)                             pickle round trip, asDict(), asDict(True) of a Row
 
@@ -246,6 +247,14 @@ def impl(case):
             return (enc_type(df.schema), [enc_val(r) for r in out])
         except Exception as e:  # pylint: disable=broad-except
             return exc(e)
+    if kind == 'create_rdd':
+        try:
+            sc = Context()
+            df = SparkSession(sc).createDataFrame(sc.parallelize([dec_val(r) for r in case[1]], case[4]))
+            out = df.collect()
+            return (enc_type(df.schema), [enc_val(r) for r in out])
+        except Exception as e:  # pylint: disable=broad-except
+            return exc(e)
     if kind == 'create_s':
         try:
             df = SparkSession(Context()).createDataFrame([dec_val(r) for r in case[2]], build_type(case[1]))
@@ -321,33 +330,8 @@ def oracle(case, result):
         if want is not None and result != want:
             return ('parse:decimal-string', f'{case[1]!r} parsed to {result!r}, expected {want!r}')
         return None
-    if kind == 'infer':
-        rows = [dec_val(r) for r in case[1]]
-        if isinstance(result, Err):
-            if case[2] == 'full':
-                return (f'infer:raises:{result.name}', f'rows whose first row has no null: {rows!r}')
-            return None
-        schema = build_type(result)
-        try:
-            verifier = T._make_type_verifier(schema)
-            for r in rows:
-                verifier(r)
-        except Exception as e:  # pylint: disable=broad-except
-            return (f'infer:inferred-schema-rejects-row:{type(e).__name__}', f'{schema!r} on {rows!r}: {e}')
-        return None
-    if kind == 'create':
-        rows = [dec_val(r) for r in case[1]]
-        if isinstance(result, Err):
-            if result.name in ('TypeError', 'AttributeError') and any(
-                    has_null_container_of_struct(case[3], r) for r in rows):
-                return ('create:null-in-array-or-map-of-struct', f'createDataFrame({rows!r}) raises {result.name}')
-            if case[2] != 'full' and result.name == 'ValueError':
-                return None         # some type could not be determined from the rows
-            return (f'create:raises:{result.name}', repr(rows))
-        out = [dec_val(r) for r in result[1]]
-        if len(out) != len(rows) or not all(same(a, b) for a, b in zip(out, rows)):
-            return ('create:collect-differs', f'{rows!r} came back as {out!r}')
-        return None
+    if kind in ('infer', 'create', 'create_rdd'):
+        return judge_inference(kind, case, result)
     if kind == 'create_s':
         label = case[3]
         rows = [dec_val(r) for r in case[2]]
@@ -395,6 +379,86 @@ def oracle(case, result):
     return None
 
 
+def leaf_paths(t, path=()):
+    """The positions of a type tree whose type inference has to determine (leaves and empty structs)."""
+    if isinstance(t, str) or t[0] == 'decimal':
+        return {path}
+    if t[0] == 'array':
+        return leaf_paths(t[1], path + ('e',))
+    if t[0] == 'map':
+        return leaf_paths(t[1], path + ('k',)) | leaf_paths(t[2], path + ('v',))
+    out = {path}
+    for f in t[1]:
+        out |= leaf_paths(f[1], path + (f[0],))
+    return out
+
+
+def determined_by(t, v, path=()):
+    """The positions of the tree whose type the value v determines: a list speaks through its first non-null
+    element, a dict through its first entry with a non-null value, a Row through every field; None and empty
+    containers say nothing below themselves (and a None says nothing at all)."""
+    if v is None:
+        return set()
+    if isinstance(t, str) or t[0] == 'decimal':
+        return {path}
+    if t[0] == 'array':
+        for x in v:
+            if x is not None:
+                return determined_by(t[1], x, path + ('e',))
+        return set()
+    if t[0] == 'map':
+        for k, x in v.items():
+            if k is not None and x is not None:
+                return determined_by(t[1], k, path + ('k',)) | determined_by(t[2], x, path + ('v',))
+        return set()
+    out = {path}
+    for f, x in zip(t[1], tuple(v)):
+        out |= determined_by(f[1], x, path + (f[0],))
+    return out
+
+
+def all_determined(t, rows):
+    """Some row determines every type of the tree the rows were generated from."""
+    need = leaf_paths(t)
+    have = set()
+    for r in rows:
+        have |= determined_by(t, r)
+    return need <= have
+
+
+def judge_inference(kind, case, result):
+    """Inference judged on the implementation alone.  The rows were generated from the tree `t` (case[3]); when
+    some row determines every type of t, inference / createDataFrame must succeed (whatever the order of the
+    rows), the inferred schema must verify every row, and collect() must give the rows back."""
+    rows = [dec_val(r) for r in case[1]]
+    t = case[3]
+    site = {'infer': 'infer', 'create': 'create', 'create_rdd': 'create-rdd'}[kind]
+    determined = bool(rows) and all_determined(t, rows)
+    if kind == 'create_rdd' and rows and not rows[0]:
+        determined = False                 # _inferSchema refuses an empty first row by design
+    if isinstance(result, Err):
+        if result.name in ('TypeError', 'AttributeError') and any(has_null_container_of_struct(t, r) for r in rows):
+            return ('create:null-in-array-or-map-of-struct', f'createDataFrame({rows!r}) raises {result.name}')
+        if determined:
+            return (f'{site}:raises-{result.name}-although-every-type-is-determined',
+                    f'rows generated from {t!r}: {rows!r}')
+        if result.name in ('ValueError', 'StopIteration'):
+            return None                    # empty data / some type could not be determined from the rows
+        return (f'{site}:raises:{result.name}', repr(rows))
+    schema = build_type(result if kind == 'infer' else result[0])
+    try:
+        verifier = T._make_type_verifier(schema)
+        for r in rows:
+            verifier(r)
+    except Exception as e:  # pylint: disable=broad-except
+        return (f'{site}:inferred-schema-rejects-row:{type(e).__name__}', f'{schema!r} on {rows!r}: {e}')
+    if kind != 'infer':
+        out = [dec_val(r) for r in result[1]]
+        if len(out) != len(rows) or not all(same(a, b) for a, b in zip(out, rows)):
+            return (f'{site}:collect-differs', f'{rows!r} came back as {out!r}')
+    return None
+
+
 def plain(v):
     """Independent statement of asDict(recursive=True): nested Rows (also inside lists and dict values) as dicts."""
     if isinstance(v, T.Row):
@@ -428,7 +492,7 @@ def kind(case):
         return f'json/{top(case[1])}/d{depth(case[1])}'
     if case[0] == 'parse':
         return 'parse/' + (case[3] if len(case) > 3 else 'x')
-    if case[0] in ('infer', 'create'):
+    if case[0] in ('infer', 'create', 'create_rdd'):
         return f'{case[0]}/{case[2]}'
     if case[0] == 'create_s':
         return f'create_s/{case[3].partition(":")[0]}'
@@ -450,7 +514,7 @@ def depth(e):
 def nontrivial(case, result):
     if case[0] == 'json':
         return depth(case[1]) >= 1 or not isinstance(case[1], str)
-    if case[0] in ('infer', 'create'):
+    if case[0] in ('infer', 'create', 'create_rdd'):
         return len(case[1]) > 0
     return True
 
@@ -867,6 +931,41 @@ def enc_rows(rows):
     return [enc_val(r) for r in rows]
 
 
+def late_cases(rng, t, full, quick):
+    """Rows in which a position says nothing about its type in some rows (None, an empty list/dict, a list/dict
+    holding only None) and is populated in another row -- in every order of the rows (sampled orders in the
+    quick tier), through the list path, the RDD path and infer_schema_from_list."""
+    blanks = []
+    for rb, tt, _, x, is_key in list(positions(t, full, False, respect=False))[1:]:
+        if is_key or x is None:
+            continue
+        name = tname(tt)
+        if name == 'array':
+            blanks += [rb([]), rb([None]), rb(None)]
+        elif name == 'map':
+            blanks += [rb({}), rb({k: None for k in x}), rb(None)]
+        else:
+            blanks.append(rb(None))
+    if not blanks:
+        return []
+    import itertools
+    chosen = rng.sample(blanks, min(len(blanks), 2))
+    rows = chosen + [full]
+    orders = list(itertools.permutations(range(len(rows))))
+    if quick and len(orders) > 3:
+        orders = [orders[0]] + rng.sample(orders[1:], 2)
+    cases = []
+    for i, order in enumerate(orders):
+        rs = enc_rows([rows[j] for j in order])
+        k = ('create', 'create_rdd', 'infer')[i % 3]
+        cases.append((k, rs, 'late', t) + ((rng.randint(1, 3),) if k == 'create_rdd' else ()))
+    # every blank row alone in front of the full row, through both input paths
+    for b in (blanks if not quick else rng.sample(blanks, min(len(blanks), 2))):
+        k = rng.choice(['create', 'create_rdd'])
+        cases.append((k, enc_rows([b, full]), 'late', t) + ((rng.randint(1, 3),) if k == 'create_rdd' else ()))
+    return cases
+
+
 def rows_cases(rng, t, quick):
     """The row-level cases derived from one top-level struct tree t."""
     cases = []
@@ -881,13 +980,17 @@ def rows_cases(rng, t, quick):
         rows = [full] + variants
         cases.append(('create', enc_rows(rows), 'full', t))
         if rng.random() < 0.5:
-            cases.append(('infer', enc_rows(rows), 'full'))
+            cases.append(('infer', enc_rows(rows), 'full', t))
+        else:
+            cases.append(('create_rdd', enc_rows(rows), 'full', t, rng.randint(1, 3)))
         if has_leaf(t, 'array') or any(tname(x) == 'array' for _, x, _, _, _ in positions(t, full, False, respect=False)):
             cases.append(('create', enc_rows([null_first(t, full)]), 'full', t))
         more = [full] + [gen_value(rng, t, False, 0.3, 0, respect=False) for _ in range(rng.randint(1, 3))]
         cases.append(('create', enc_rows(more), 'full', t))
+        cases.extend(late_cases(rng, t, full, quick))
         sparse = [gen_value(rng, t, False, 0.35, 0, respect=False) for _ in range(rng.randint(1, 4))]
-        cases.append(('create' if rng.random() < 0.5 else 'infer', enc_rows(sparse), 'sparse', t))
+        k = rng.choice(['create', 'infer', 'create_rdd'])
+        cases.append((k, enc_rows(sparse), 'sparse', t) + ((rng.randint(1, 3),) if k == 'create_rdd' else ()))
     # -- explicit schema: valid rows with nulls at every nullable position, then single-position damages
     if not null_ok(t):
         return cases
@@ -1031,7 +1134,7 @@ def shrink_candidates(case):
                     yield ('json', f[1])
                     if f[3] != ([],):
                         yield ('json', ('struct', e[1][:i] + [(f[0], f[1], f[2], ([],))] + e[1][i + 1:]))
-    if case[0] in ('create', 'infer'):
+    if case[0] in ('create', 'infer', 'create_rdd'):
         rows = case[1]
         if len(rows) > 1:
             for i in range(len(rows)):
